@@ -165,3 +165,61 @@ package types
 //@                 validateGroupPricing#*, validateOrderBidDuration#*, validateDeploymentGroup#*, (GroupSpec).ValidateBasic#*, ValidateDeploymentGroups#*,
 //@                 validateCPU#*, validateMemory#*, validateStorage#*, newLimits#*, validateResourceUnit#*, validateResourceGroup#*,
 //@                 (*resourceLimits).add#*, (*resourceLimits).mul#*
+
+// ---- ids, accessors, lifecycle guards (C04) ---------------------------------------
+//@ func (Deployment).ID
+//@   ensures result == obj.DeploymentID
+//@ func (Group).ID
+//@   ensures result == g.GroupID
+//@ func (GroupID).DeploymentID
+//@   ensures result.Owner == id.Owner && result.DSeq == id.DSeq
+//@ func MakeGroupID
+//@   ensures result.Owner == id.Owner && result.DSeq == id.DSeq && result.GSeq == gseq
+//@ func (DeploymentID).Equals
+//@   ensures result <==> (id.Owner == other.Owner && id.DSeq == other.DSeq)
+//@ func (GroupID).Equals
+//@   ensures result <==> (id.Owner == other.Owner && id.DSeq == other.DSeq && id.GSeq == other.GSeq)
+//@ func (Group).ValidateClosable
+//@   ensures result == nil <==> g.State != GroupClosed
+//@ func (Group).ValidatePausable
+//@   ensures result == nil <==> (g.State != GroupClosed && g.State != GroupPaused)
+//@ func (Group).ValidateStartable
+//@   ensures result == nil <==> (g.State != GroupClosed && g.State != GroupOpen)
+
+// ---- events (signature = abstract identity of the typed event; byte-level form under C16) ----
+//@ spec sigDeployment(kind: int, id: DeploymentID): str
+//@ spec sigGroup(kind: int, id: GroupID): str
+//@ func NewEventDeploymentCreated
+//@   ensures result.ID == id && result.Version == version
+//@ func NewEventDeploymentUpdated
+//@   ensures result.ID == id && result.Version == version
+//@ func NewEventDeploymentClosed
+//@   ensures result.ID == id
+//@ func NewEventGroupClosed
+//@   ensures result.ID == id
+//@ func NewEventGroupPaused
+//@   ensures result.ID == id
+//@ func NewEventGroupStarted
+//@   ensures result.ID == id
+//@ func (EventDeploymentCreated).ToSDKEvent
+//@   trusted
+//@   ensures evSig(result) == sigDeployment(1, ev.ID)
+//@ func (EventDeploymentUpdated).ToSDKEvent
+//@   trusted
+//@   ensures evSig(result) == sigDeployment(2, ev.ID)
+//@ func (EventDeploymentClosed).ToSDKEvent
+//@   trusted
+//@   ensures evSig(result) == sigDeployment(3, ev.ID)
+//@ func (EventGroupClosed).ToSDKEvent
+//@   trusted
+//@   ensures evSig(result) == sigGroup(1, ev.ID)
+//@ func (EventGroupPaused).ToSDKEvent
+//@   trusted
+//@   ensures evSig(result) == sigGroup(2, ev.ID)
+//@ func (EventGroupStarted).ToSDKEvent
+//@   trusted
+//@   ensures evSig(result) == sigGroup(3, ev.ID)
+
+//@ property C04 := (Deployment).ID#*, (Group).ID#*, (GroupID).DeploymentID#*, MakeGroupID#*, (DeploymentID).Equals#*, (GroupID).Equals#*,
+//@                 (Group).ValidateClosable#*, (Group).ValidatePausable#*, (Group).ValidateStartable#*,
+//@                 NewEventDeploymentCreated#*, NewEventDeploymentUpdated#*, NewEventDeploymentClosed#*, NewEventGroupClosed#*, NewEventGroupPaused#*, NewEventGroupStarted#*
